@@ -106,7 +106,7 @@ func init() {
 		Level: "exploration",
 		Cases: func(tier string) int { return tierN(tier, 1500, 80000) },
 		Rule: "case = one history (12-50 ops quick, up to 120 thorough) dense in commits without writes, empty versions, single-leaf roots reused by later trees, rollbacks to a version followed by rewrites, partial/repeated/multi-version DeleteVersionsTo; flush thresholds 150..default (a deletion is split over several physical batches - counted through the storage seam), cache 0..1000, fast index on/off. " +
-			"Around every DeleteVersionsTo(n): an observation vector (root hash, ordered contents, Get of every universe key, ICS-23 proof verification for every universe key) is recorded for every later version before the call and compared after it on the live handle AND on a freshly opened handle; versions <= n must be unavailable on VersionExists/GetImmutable/AvailableVersions/GetVersioned (live and reopened); an invalid request (n >= latest, or a version pinned by an open Exporter) must return an error and leave the raw store byte-identical, and must succeed once the Exporter is closed. " +
+			"Around every DeleteVersionsTo(n): an observation vector (root hash, ordered contents, Get of every universe key, ICS-23 proof verification for every universe key) is recorded for every later version before the call and compared after it on the live handle AND on a freshly opened handle; versions <= n must be unavailable on VersionExists/GetImmutable/AvailableVersions/GetVersioned (live and reopened); an invalid request (n >= latest, or a version pinned by an open Exporter - opened right before the request, or opened earlier while that version was still the latest one and held over the following commits) must return an error and leave the raw store byte-identical, and must succeed once the Exporter is closed. " +
 			"distinct = hash(config, ops); non-trivial = >=1 successful deletion that left >=1 later version and at least one of {no-op commit adjacent to the deleted range, single-leaf or empty root in range, deletion split over >=2 physical writes}.",
 		Assumptions: []string{"synchronous pruning", "the ics23 verifier is trusted", "model M decides which versions must remain"},
 		Run: func(c *fw.Ctx) {
@@ -127,11 +127,31 @@ func init() {
 			}
 			defer e.Close()
 			good, special := 0, 0
+			// a long-lived export, opened on a version while it is the latest one and kept open over the
+			// following writes and commits (closed before anything else than set / remove / commit / prune)
+			var held *iavl.Exporter
+			heldVer := int64(0)
+			defer func() {
+				if held != nil {
+					held.Close()
+				}
+			}()
 			for _, op := range pl.Ops {
+				if held != nil && op.Kind != "set" && op.Kind != "rm" && op.Kind != "save" && op.Kind != "delto" {
+					held.Close()
+					held = nil
+				}
 				if op.Kind != "delto" {
-					e.Apply(op, false)
+					out := e.Apply(op, false)
 					if e.Dead {
 						break
+					}
+					if op.Kind == "save" && out.Err == nil && held == nil && e.M.Base == e.M.Latest && c.Rng.Intn(6) == 0 {
+						if it, err := e.T.GetImmutable(e.M.Latest); err == nil {
+							if x, err := it.Export(); err == nil {
+								held, heldVer = x, e.M.Latest
+							}
+						}
 					}
 					c.State(e.AbstractState())
 					continue
@@ -154,6 +174,21 @@ func init() {
 					break
 				}
 				pre, _ := seam.Dump(e.W.Inner)
+				if held != nil {
+					if valid && n >= heldVer && heldVer >= e.M.First {
+						err := e.T.DeleteVersionsTo(n)
+						if err == nil {
+							e.Bad("prune|pinned-since-latest|accepted", "DeleteVersionsTo(%d) succeeded while an Exporter opened on version %d (the latest version at that time) is still open", n, heldVer)
+						}
+						post, _ := seam.Dump(e.W.Inner)
+						if !pre.Equal(post) {
+							e.Bad("prune|pinned-since-latest|store-changed", "rejected DeleteVersionsTo(%d) (version %d pinned by an export opened while it was the latest) changed the raw store", n, heldVer)
+						}
+						c.Obs("pinned_since_latest_rejections", 1)
+					}
+					held.Close()
+					held = nil
+				}
 				// optionally pin a version in the range with an open export
 				var exp *iavl.Exporter
 				pinned := int64(0)
